@@ -267,7 +267,7 @@ func vCaseC10(t *rapid.T, st *verifkit.Stats) {
 			opSynth()
 			return
 		}
-		err := e.WithRepo(func(ctx context.Context, repo *repository.Repository) error {
+		err := vWithRepoRWC10(e, func(ctx context.Context, repo *repository.Repository) error {
 			if err := repo.LoadIndex(ctx, restic.NoopTerminalCounterFactory); err != nil {
 				return err
 			}
